@@ -822,6 +822,27 @@ fn apply_fault(data: &mut Vec<u8>, f: &Value) -> bool {
             data.splice(p..p, ws);
             true
         }
+        "mb_tail" => {
+            let text = String::from_utf8_lossy(data).to_string();
+            let ch = jstr(f, "ch");
+            // segment boundaries: '/', ' ' and the end of the text; seg counts from the end
+            let mut ends: Vec<usize> = text.char_indices().filter(|(_, c)| *c == '/' || *c == ' ').map(|(i, _)| i).collect();
+            ends.push(text.len());
+            let at = ends[ends.len() - 1 - jusize(f, "seg").min(ends.len() - 1)];
+            let mut out = String::new();
+            let head = &text[..at];
+            if jbool(f, "replace") && !head.is_empty() && !head.ends_with('/') && !head.ends_with(' ') {
+                let mut h = head.to_string();
+                h.pop();
+                out.push_str(&h);
+            } else {
+                out.push_str(head);
+            }
+            out.push_str(ch);
+            out.push_str(&text[at..]);
+            *data = out.into_bytes();
+            true
+        }
         "ws_shell" => {
             let k = jusize(f, "core").min(data.len());
             let core: Vec<u8> = if jbool(f, "from_end") { data[data.len() - k..].to_vec() } else { data[..k].to_vec() };
@@ -1039,9 +1060,12 @@ impl Scenario for ArtefactMedium {
             } else if json_kind && rng.chance(1, 2) {
                 json!({"f": "json_value", "k": rng.below(12), "with": *rng.pick(&["1", "-1", "0", "1e400", "18446744073709551616", "4294967296", "null", "true", "[]", "{}", "\"\"", "\"zz\"", "\"00\"", "\"aaaaaaaaaaaaaaaaaaaaaaaaaaaaaaaaaaaaaaaaaaaaaaaaaaaaaaaaaaaaaaa\"", "\"aaaaaaaaaaaaaaaaaaaaaaaaaaaaaaaaaaaaaaaaaaaaaaaaaaaaaaaaaaaaaaaaa\"", "\"0\"", "\"abc\"", "[1,2,3]", "{\"a\":1}", "1.5", "\"\u{e9}\u{20ac}\"", "\"0\u{e9}1\"", "\"\u{20ac}0\"", "\"z\u{e9}0\"", "\"00\u{e9}\"", "\"0\\u00e91\"", "99999999999999999999999999999999999999", "1.0", "-0", "1E2", "1e-2", "0.5e1", "\"\\ud83d\\ude00\"", "\"\\ud800\"", "\"\\u0000\"", "\"\\n\"", "[[]]", "{\"value\":1,\"value\":2}", "18446744073709551615", "-9223372036854775809", "1.8446744073709552e19"])})
             } else if token_kind && rng.chance(1, 2) {
-                json!({"f": "token", "k": rng.below(16), "insert": rng.chance(1, 2), "with": *rng.pick(&["", "", "OP_PUSH", "OP_PUSHDATA1", "OP_PUSHDATA2", "OP_PUSHDATA4", "OP_PUSH 4294967295 00", "OP_PUSHDATA4 4294967296 00", "OP_PUSHDATA4 1073741824 00", "OP_PUSHDATA4 4294967295 00", "OP_PUSHDATA2 65535 00", "OP_PUSHDATA1 255 00", "OP_PUSH 75 00", "OP_PUSH 0 ", "OP_DATA20=", "OP_DATA==5", "OP_DATA=4294967296", "OP_DATA>=18446744073709551616", "OP_DATA<", "OP_DATA=", "OP_DATA=-1", "OP_DATA>", "0x", "zz", "é€", "a€", "OP_é", "17", "-1", "2147483648", "2147483647'", "4294967295", "4294967296", "2147483648h", "99999999999999999999", "'", "h", "/", "m", "m/", "0''", "OP_IF", "OP_ENDIF", "OP_ELSE", "\n", "\r", "\t"])})
+                json!({"f": "token", "k": rng.below(16), "insert": rng.chance(1, 2), "with": *rng.pick(&["", "", "OP_PUSH", "OP_PUSHDATA1", "OP_PUSHDATA2", "OP_PUSHDATA4", "OP_PUSH 4294967295 00", "OP_PUSHDATA4 4294967296 00", "OP_PUSHDATA4 1073741824 00", "OP_PUSHDATA4 4294967295 00", "OP_PUSHDATA2 65535 00", "OP_PUSHDATA1 255 00", "OP_PUSH 75 00", "OP_PUSH 0 ", "OP_DATA20=", "OP_DATA==5", "OP_DATA=4294967296", "OP_DATA>=18446744073709551616", "OP_DATA<", "OP_DATA=", "OP_DATA=-1", "OP_DATA>", "0x", "zz", "é€", "a€", "OP_é", "17", "-1", "2147483648", "2147483647'", "4294967295", "4294967296", "2147483648h", "99999999999999999999", "'", "h", "/", "m", "m/", "0''", "OP_IF", "OP_ENDIF", "OP_ELSE", "\n", "\r", "\t", "m/0\u{2019}", "m/44\u{2019}/0\u{2019}", "m/0\u{2032}", "m/0\u{e9}", "m/\u{2019}", "m/0/\u{1f600}", "m/1\u{2019}/2h"])})
             } else if is_text_kind(kind) && rng.chance(1, 10) {
-                match rng.below(4) {
+                match rng.below(5) {
+                    // round 12: the text ends (or one of its path / token segments ends) in a character of 2-4 bytes, in place of
+                    // or behind its last character - byte arithmetic on the tail of a str
+                    4 => json!({"f": "mb_tail", "ch": *rng.pick(&["\u{2019}", "\u{2032}", "\u{e9}", "\u{20ac}", "\u{1f600}", "\u{2019}\u{2019}"]), "replace": rng.chance(1, 2), "seg": rng.below(4), "level": "text"}),
                     // round 11: almost nothing but spacing - a core of 0-3 characters of the text inside a shell of blanks, the whole
                     // as long as the well-formed text (so that length guards taken before and after trimming disagree)
                     3 => json!({"f": "ws_shell", "core": rng.below(4), "from_end": rng.chance(1, 2), "lead": *rng.pick(&[0u64, 1, 16, 32, 33, 34, 64]), "trail": *rng.pick(&[0u64, 0, 1, 16, 33, 64]), "fit": rng.chance(1, 2), "ws": *rng.pick(&["20", "20", "09", "0a", "0d"]), "level": "text"}),
